@@ -201,14 +201,15 @@ PROFILES = {
                 unrelate=4, unrelate_unlinked=1.5, delete=2, delete_again=1, setattr=1, select=0.5, nav=1,
                 new_ref=1, undo=1),
     'C09': dict(new=5, relate=8, relate_overflow=0.5, unrelate=2.5, delete=1.5, setattr=3, select=9, nav=9,
-                subtype=1.5, hold=1.5, recheck=2, new_ref=1, nav_bad=0.5),
+                subtype=1.5, hold=1.5, recheck=2, new_ref=1, nav_bad=0.5, swap_attr=0.3),
     'C10': dict(new=3, new_kw=3, new_ref=1.5, relate=3, unrelate=1, setattr=10, getattr=6, delattr=1.2, set_ref=1,
-                select_eq=5, find_class=1.5, delete=0.5, del_unset=0.4, define_again=0.5),
+                select_eq=5, find_class=1.5, delete=0.5, del_unset=0.4, define_again=0.5, add_attr=0.3,
+                swap_attr=0.6),
     'C11': dict(new=5, relate=7, unrelate=4, delete=2, setattr_id=5, setattr=1, check=6, new_ref=1),
     'C16': dict(new_n=5, relate_n=10, unrelate_n=3, delete=1.2, sort=8, sort_partial=2, relate_overflow=1.5,
                 new=1, relate=1),
     'C19': dict(new=4, new_args=9, new_kw=4, new_bad=1, idgen=5, relate=2, delete=1, setattr=1, select=1, swap_idgen=0.6,
-                add_attr=0.8),
+                add_attr=0.8, swap_attr=0.5),
 }
 
 
@@ -818,6 +819,29 @@ class Gen(object):
         idx = None if rng.random() < 0.4 else rng.randint(0, len(c['attrs']))
         return {'op': 'add_attr', 'kind': self.sp(c['kind']), 'name': 'X%d' % self.nattr, 'type': ty, 'index': idx}
 
+    def op_swap_attr(self):
+        '''
+        A plain attribute of a (usually populated) class is deleted from the metaclass and, most of the time, another
+        one is inserted in the same step, so that the number of attributes stays what it was.
+        '''
+        rng = self.rng
+        cands = []
+        for c in self.good_classes:
+            ident = self.sch.identifying(c['kind'])
+            for n, _ in self.plain_attrs(c['kind']):
+                if n not in ident and n not in ('Kind', 'Self'):
+                    cands.append((c, n))
+        if not cands:
+            return None
+        c, drop = rng.choice(cands)
+        op = {'op': 'swap_attr', 'kind': self.sp(c['kind']), 'drop': drop, 'name': None, 'type': None, 'index': None}
+        if rng.random() < 0.85:
+            self.nattr = getattr(self, 'nattr', 0) + 1
+            op['name'] = rng.choice(['X%d', 'x%d', 'Label%d', '_y%d']) % self.nattr
+            op['type'] = rng.choice(['integer', 'string', 'UNIQUE_ID', 'Boolean', 'real', 'unique_id', 'STRING'])
+            op['index'] = None if rng.random() < 0.4 else rng.randint(0, len(c['attrs']) - 1)
+        return op
+
     def op_swap_idgen(self):
         '''the id generator is a public attribute of the metamodel: replace it in mid-history'''
         self.nswap = getattr(self, 'nswap', 0) + 1
@@ -938,6 +962,8 @@ class Gen(object):
                 op = self.op_swap_idgen()
             elif k == 'add_attr':
                 op = self.op_add_attr()
+            elif k == 'swap_attr':
+                op = self.op_swap_attr()
             elif k == 'hold':
                 op = self.op_hold()
             elif k == 'recheck':
@@ -1212,6 +1238,30 @@ def apply_ref(ref, op, gen_time=False, world=None):
     if k == 'swap_idgen':
         _, ref.idgen = make_idgen(_FakeXtuml, op['kind'], 0)
         return ('swap', None)
+    if k == 'swap_attr':
+        try:
+            c = sch.cls(op['kind'])
+        except KeyError:
+            raise Skip('unknown class')
+        drop = sch.declared(c['kind'], op['drop'])
+        if c.get('bad') or drop is None or drop in sch.referential(c['kind']) or drop in sch.identifying(c['kind']):
+            raise Skip('attribute cannot be dropped')
+        if op['name'] is not None and sch.declared(c['kind'], op['name']) is not None:
+            raise Skip('attribute exists')
+        c['attrs'][:] = [a for a in c['attrs'] if a[0] != drop]
+        for row in ref.rows.values():
+            if row.kind.upper() == c['kind'].upper():
+                row.values.pop(drop, None)
+                row.unset.discard(drop)
+        if op['name'] is not None:
+            idx = op['index']
+            if idx is None or idx > len(c['attrs']):
+                c['attrs'].append([op['name'], op['type']])
+            else:
+                c['attrs'].insert(idx, [op['name'], op['type']])
+            for h in ref.live(c['kind']):
+                ref.rows[h].unset.add(op['name'])
+        return ('swap', None)
     if k == 'add_attr':
         try:
             c = sch.cls(op['kind'])
@@ -1385,7 +1435,8 @@ class StoreEngine(Engine):
                     'assoc_class_relate'],
             'C09': ['nav_two_hop', 'nav_reflexive', 'nav_len3', 'order_with_ties', 'select_one_none', 'held_rechecked',
                     'nav_from_set', 'subtype_found'],
-            'C10': ['write_then_read_other_spelling', 'F1_set_referential', 'where_eq_spelling', 'delattr', 'shadow_world'],
+            'C10': ['write_then_read_other_spelling', 'F1_set_referential', 'where_eq_spelling', 'delattr', 'shadow_world',
+                    'attribute_swapped'],
             'C11': ['check_nonzero_assoc', 'check_nonzero_unique', 'check_zero', 'check_consistent_true',
                     'check_consistent_false'],
             'C16': ['sort_chain_ge3', 'sort_ring_ge2', 'sort_multi_chain', 'sort_empty', 'sort_partial'],
@@ -1736,6 +1787,17 @@ class Exec(object):
             else:
                 mc.insert_attribute(op['index'], op['name'], op['type'])
             self.bump(self.probes, 'attribute_added')
+            return None
+        if k == 'swap_attr':
+            mc = m.find_metaclass(op['kind'])
+            declared = [n for n, _ in mc.attributes if n.upper() == op['drop'].upper()]
+            mc.delete_attribute(declared[0])
+            if op['name'] is not None:
+                if op['index'] is None or op['index'] > len(mc.attributes):
+                    mc.append_attribute(op['name'], op['type'])
+                else:
+                    mc.insert_attribute(op['index'], op['name'], op['type'])
+            self.bump(self.probes, 'attribute_swapped')
             return None
         if k == 'swap_idgen':
             g, _ = make_idgen(x, op['kind'], 0)
